@@ -1015,3 +1015,12 @@ VARIANTS += [
     dict(prop="C12", name="aggregation-dummy-key-share-sides-swapped", expect="COUNT-padding|aggregation:key-share-zero-towards-excluded",
          edits=[dict(file=OPM, find="                            Direction::Left => AdditiveShare::new(\n                                BK::ZERO,\n                                BK::truncate_from(u128::from(breakdownkey)),\n                            ),\n                            Direction::Right => AdditiveShare::new(\n                                BK::truncate_from(u128::from(breakdownkey)),\n                                BK::ZERO,\n                            ),", replace="                            Direction::Right => AdditiveShare::new(\n                                BK::ZERO,\n                                BK::truncate_from(u128::from(breakdownkey)),\n                            ),\n                            Direction::Left => AdditiveShare::new(\n                                BK::truncate_from(u128::from(breakdownkey)),\n                                BK::ZERO,\n                            ),")]),
 ]
+
+MAS = "ipa-core/src/secret_sharing/replicated/malicious/additive_share.rs"
+SAS = "ipa-core/src/secret_sharing/replicated/semi_honest/additive_share.rs"
+VARIANTS += [
+    dict(prop="C04", name="mac-share-sub-assign-adds-rx", expect="LINEAR-mac|SubAssign",
+         edits=[dict(file=MAS, find="        self.x -= &rhs.x;\n        self.rx -= &rhs.rx;", replace="        self.x -= &rhs.x;\n        self.rx += &rhs.rx;")]),
+    dict(prop="C04", name="mac-share-sub-assign-components-reordered",
+         edits=[dict(file=MAS, find="        self.x -= &rhs.x;\n        self.rx -= &rhs.rx;", replace="        self.rx -= &rhs.rx;\n        self.x -= &rhs.x;")], benign=True),
+]
